@@ -152,7 +152,7 @@ func vfH_C11_dialled_filter() {
 	var remote, foreign net.Addr
 	if vfPick("udpaddr", 0, 1) == 1 {
 		remote = &net.UDPAddr{IP: net.IP{10, 0, 0, 1}, Port: 2000}
-		foreign = []net.Addr{&net.UDPAddr{IP: net.IP{10, 0, 0, 2}, Port: 2000}, &net.UDPAddr{IP: net.IP{10, 0, 0, 1}, Port: 2001}, vfAddr("10.0.0.1:2000")}[vfPick("foreign", 0, 2)]
+		foreign = []net.Addr{&net.UDPAddr{IP: net.IP{10, 0, 0, 2}, Port: 2000}, &net.UDPAddr{IP: net.IP{10, 0, 0, 1}, Port: 2001}, vfAddr("10.0.0.1:2000"), &net.UDPAddr{IP: net.IP{10, 0, 0, 1}, Port: 2000, Zone: "eth1"}}[vfPick("foreign", 0, 3)]
 	} else {
 		remote = vfServerAddr
 		foreign = vfOtherAddr
@@ -210,6 +210,18 @@ func vfH_C19_oob() {
 	vfAssert("oob/sender-fec-untouched", !vfWritten(pr.client.fecEncoder))
 	wire := pr.cconn.writes[len(pr.cconn.writes)-1].data
 	vfAssert("oob/size-on-wire<=mtu", len(wire) <= 100)
+	nl := 0
+	switch ck {
+	case vfCipherNone:
+		nl = nonceSize
+	case vfCipherAEAD:
+		nl = 12
+	}
+	if nl > 0 {
+		for _, w := range pr.cconn.writes[:len(pr.cconn.writes)-1] {
+			vfAssert("oob/nonce-fresh", vfFreshlyDistinct(wire[:nl], w.data[:nl]))
+		}
+	}
 	pr.l.packetInput(vfCopy(wire), vfClientAddr)
 	vfReach("received")
 	vfAssert("oob/handler-called-once", calls == 1)
